@@ -385,6 +385,27 @@ def note_events(ctx, events, nontrivial=lambda e: True, keep=3):
         ctx.samples.append(json.loads(s) if len(s) < 1500 else {"op": e.get("op"), "truncated": s[:1200]})
 
 
+def reproduce_revalidate(ctx, binp, bad_events, module, extra_env=None, chunk=4):
+    """For calls whose result is legitimately nondeterministic (Mine with several workers): re-run the
+    real code on the same inputs and let TLC judge the new events; a rejection is confirmed when the
+    re-run of the same input is rejected again."""
+    if not bad_events:
+        return []
+    d = ctx.rundir("reproduce")
+    inp = os.path.join(d, "in.ndjson")
+    write_ndjson(inp, [dict(op=e["op"], **{"in": e["in"]}) for e in bad_events])
+    outp = os.path.join(d, "out.ndjson")
+    run_driver(ctx, binp, "replay", outp, infile=inp, extra_env=extra_env)
+    again = read_ndjson(outp)
+    st, tr, ev, tn = ctx.states, ctx.transitions, ctx.events, ctx.traces
+    rej = validate_trace(ctx, module, again, chunk=chunk, label="T_reproduce")
+    ctx.events, ctx.traces = ev, tn
+    if len(rej) != len(bad_events):
+        ctx.notes.append("%d of %d rejections were not reproduced on a second run" % (len(bad_events) - len(rej), len(bad_events)))
+        ctx.log("WARNING: %d rejected events were not reproduced" % (len(bad_events) - len(rej)))
+    return rej
+
+
 def reproduce(ctx, binp, bad_events, extra_env=None):
     """A rejected event becomes a violation only if re-running the real code on
     the same logged input gives the same rejected output (rule 1)."""
